@@ -29,6 +29,26 @@ theorem avec_pop_observe (v w : AVec α) (h : v.observe = w.observe) :
   rw [h]
   split <;> simp [AVec.observe]
 
+/-- inserting into two vectors with the same live contents gives the same observation and the same
+success/failure, whatever their unused slots contain — in particular nothing from beyond the live
+length can become observable (`save_initial_rules` on a context whose upper slots still hold rows
+of an earlier evaluation) -/
+theorem avec_insert_observe (cap : Nat) (v w : AVec α) (i : Nat) (x : α) (h : v.observe = w.observe) :
+    (AVec.tryInsert cap v i x).map AVec.observe = (AVec.tryInsert cap w i x).map AVec.observe := by
+  simp only [AVec.observe] at h
+  unfold AVec.tryInsert
+  rw [h]
+  split <;> simp [AVec.observe]
+
+/-- and the inserted vector observes as the live elements with `x` at position `i` -/
+theorem avec_insert_spec (cap : Nat) (v : AVec α) (i : Nat) (x : α) (v' : AVec α)
+    (h : AVec.tryInsert cap v i x = some v') :
+    v'.observe = v.observe.take i ++ x :: v.observe.drop i := by
+  unfold AVec.tryInsert at h
+  split at h
+  · simp only [Option.some.injEq] at h; subst h; rfl
+  · simp at h
+
 /-! ## UnwindContext -/
 
 /-- **reset = fresh**, for EVERY context state — whatever rows, initial rule and flag an earlier
